@@ -3,10 +3,14 @@
    N, Z, positive, nat stay the inductive types.  No Extract Constant. *)
 Require Import Sml.Base.Prelude Sml.Base.Crc Sml.Spec.Frame.
 Require Import Sml.Model.Decode Sml.Model.Encode Sml.Model.Frontends.
+Require Import Sml.Model.Parser Sml.Model.Reader Sml.Model.ArrayBuf.
 Require Import ExtrOcamlBasic.
 Extraction Language OCaml.
 Extraction "model.ml"
   crc16 frame esc
   do_op init step finalize reset
   encode_buf enc_collect_from enc_new enc_limit enc_after
-  decode_fn di_new di_next di_all di_extra.
+  decode_fn di_new di_next di_all di_extra
+  parse sp_new sp_next sp_calls tlf_parse
+  rd_new sr_calls
+  ab_default ab_run ab_state ab_from_iter ab_eq ab_deref.
